@@ -129,6 +129,19 @@ func genCase(t *rapid.T) c13Case {
 			}
 			c.Steps = append(c.Steps, step{LogB: true, Size: sz, Mod: mod})
 		}
+		if c.P >= 2 && gen.Chance(t, 35, "tsamehead") {
+			// the identical forked head is presented again, this time for a record of the common prefix
+			// that the half-warm cache does not hold (odd ids are not prefilled in that mode)
+			c.Prefill = 1
+			last := c.Steps[len(c.Steps)-1]
+			var odd []int64
+			for i := int64(1); i < c.P && i < last.Size; i += 2 {
+				odd = append(odd, i)
+			}
+			if len(odd) > 0 {
+				c.Steps = append(c.Steps, step{LogB: true, Size: last.Size, Mod: odd[gen.Uniform(t, len(odd), "tprefixmod")]})
+			}
+		}
 		ns = len(c.Steps)
 		if gen.Chance(t, 40, "ttileerror") {
 			// ... while some tile cannot be read (cold cache in that case, so that tiles are really fetched)
